@@ -197,18 +197,12 @@ func (v *Version) Compare(other *Version) int {
 		return v.pseudo.timestamp.Compare(other.pseudo.timestamp)
 	}
 	if v.pseudo != nil && other.pseudo == nil {
-		// Pseudo-versions are pre-release, so they come before releases
-		if other.prerelease == "" {
-			return -1
-		}
-		// Compare with prerelease
-		return comparePrerelease("pseudo", other.prerelease)
+		// Pseudo-versions are pre-release, so they come before releases, and
+		// they sort before every tagged pre-release of the same version.
+		return -1
 	}
 	if v.pseudo == nil && other.pseudo != nil {
-		if v.prerelease == "" {
-			return 1
-		}
-		return comparePrerelease(v.prerelease, "pseudo")
+		return 1
 	}
 
 	// Compare prerelease according to semver rules
@@ -242,17 +236,6 @@ func comparePrerelease(a, b string) int {
 	}
 	if b == "" {
 		return -1
-	}
-
-	// Special handling for pseudo-versions
-	if a == "pseudo" && b != "pseudo" {
-		return -1
-	}
-	if a != "pseudo" && b == "pseudo" {
-		return 1
-	}
-	if a == "pseudo" && b == "pseudo" {
-		return 0
 	}
 
 	// Lexicographic comparison for prereleases
